@@ -81,6 +81,20 @@ def h_rerun(sx):
                         selected.append("%s:%d" % (os.path.basename(sc.location.filename), sc.line))
             sx.check(sorted(selected) == sorted(os.path.basename(x) for x in listed), "C17.fed-back-selects-exactly-the-listed-scenarios",
                      detail=lambda m: dict(det(m), selected=selected))
+            # ... and the second run itself skips all others (also scenarios without steps)
+            from behave.runner import ModelRunner, Context
+            r2 = ModelRunner(w.config, features=feats, step_registry=w.runner.step_registry)
+            r2.context = Context(r2)
+            r2.formatters = []
+            w.opts["out_dom"] = {"*": [0, 0]}       # (what the steps of the second run do is of no interest here: they pass)
+            try:
+                r2.run_model()
+                second = {"%s:%d" % (os.path.basename(sc.location.filename), sc.line): sc.status.name for f in feats for sc in f.walk_scenarios()}
+            except Exception as e:      # noqa
+                second = {"<exception>": repr(e)}
+            names = [os.path.basename(x) for x in listed]
+            wrong = {k: v for k, v in second.items() if k not in names and v != "skipped"}
+            sx.check(not wrong, "C17.second-run-skips-all-others", detail=lambda m: dict(det(m), second_run=second, not_skipped=wrong))
         return {"listed": listed, "status": st}
     finally:
         os.chdir(cwd)
@@ -105,6 +119,8 @@ def jobs(tier, seed):
                            R([O(1, [(1, [])], name="Happy path")])])], {"out_dom": {"*": [0, 1]}}),
         # two files with the same layout: a line number listed for the first file is the line of a passing scenario in the second
         "two-files-same-layout": ([F([S(1), S(1)]), F([S(1), S(1)])], {"out_dom": {"*": [0, 1]}, "undef": False}),
+        # scenarios without steps next to failing ones
+        "stepless": ([F([S(1), S(0), S(1)]), F([S(0), S(1)])], {"out_dom": {"*": [0, 2]}, "undef": False}),
         "hookfault-skip": ([F([S(1, tags=["t1"]), S(1)])], {"hooks": True, "fault": True, "hook_skip_scenario": True, "out_dom": {"*": [0, 1]}, "undef": False}),
         "hookfault": ([F([S(1, tags=["t1"]), R([S(1)], tags=["tr"])], tags=["t0"])], {"hooks": True, "fault": True, "out_dom": {"*": [0, 1]}}),
         "hookfault-status-read": ([F([S(1, tags=["t1"]), S(1)])], {"hooks": True, "fault": True, "read_status_in_hooks": True, "out_dom": {"*": [0, 1]}}),
